@@ -7,8 +7,7 @@ import Compute.Generated.C02Consts
 Driver for C02 (model at `Float`).  Requests (floats as 16 hex digits, integers decimal):
   `pdf   <dist> <params> n x1 … xn`   -> `= y1 … yn`      (continuous distributions)
   `lnpdf <dist> <params> n x1 … xn`   -> `= y1 … yn`
-  `cdf   normal mu sigma n x1 … xn`   -> `= y1 … yn`      (`! diverged` when an `erf` argument is NaN: the Rust
-                                                           recursion does not terminate there)
+  `cdf   normal mu sigma n x1 … xn`   -> `= y1 … yn`      (a NaN `erf` argument gives `nan` since F56)
   `pmf   <dist> <params> n k1 … kn`   -> `= y1 … yn`      (discrete distributions, `k : i64`)
   `mean  <dist> <params>` | `var <dist> <params>` -> `= y`
   `mvn_pdf k mean[k] cov[k*k] m xs[m*k]` | `mvn_lnpdf …`  -> `= y1 … ym`
@@ -61,9 +60,7 @@ def pObj : P (Option Obj) := do
     pure <| guard' (Normal.valid mu s)
       { cont (Normal.pdf F mu s) (showFloat (Normal.mean mu s)) (showFloat (Normal.var mu s)) with
         lnpdf := Normal.lnPdf F mu s
-        cdf := some fun x =>
-          let z := (x - mu) / (s * Float.sqrt 2.0)
-          if z.isNaN then none else some (Normal.cdf F mu s x) }
+        cdf := some fun x => some (Normal.cdf F mu s x) }
   | "gamma" => do
     let a ← pFloat; let b ← pFloat
     pure <| guard' (Gamma.valid a b)
